@@ -133,6 +133,10 @@ Fixpoint first_bad (A B : mschema) (phi all : list (nat * nat)) : option (nat * 
   | p :: r => if equiv_pair A B all p then first_bad A B r all else Some p
   end.
 
+(** all pairs the check fails on (the run reports each of them) *)
+Definition all_bad (A B : mschema) (phi : list (nat * nat)) : list (nat * nat) :=
+  filter (fun p => negb (equiv_pair A B phi p)) phi.
+
 (** every root (a migrated type and its origin) is covered by the correspondence *)
 Definition roots_covered (A B : mschema) (phi roots : list (nat * nat)) : bool :=
   forallb (fun p => relb A B phi (fst p) (snd p)) roots.
